@@ -359,21 +359,25 @@ def check_property(pid, tier, seed, reg, results_cache):
             results_cache[key] = f.result()
         # thorough: every unit once more under a different solver seed; a proof that does not survive it is unstable
         sfuts = {}
+        extra_seeds = []
         if tier == 'thorough':
-            s2 = str(seed if seed else 1)
-            for un in units:
-                key = 'seed2:' + un
-                if key not in results_cache:
-                    sfuts[key] = ex.submit(run_verus_unit, un, tier, seed, ('--smt-option', 'smt.random_seed=' + s2))
+            s2 = seed if seed else 1
+            extra_seeds = [s2, s2 + 1]
+            for sd in extra_seeds:
+                for un in units:
+                    key = 'seed%d:%s' % (sd, un)
+                    if key not in results_cache:
+                        sfuts[key] = ex.submit(run_verus_unit, un, tier, seed, ('--smt-option', 'smt.random_seed=%d' % sd))
             for key, f in sfuts.items():
                 results_cache[key] = f.result()
     unstable = []
     if tier == 'thorough':
-        for un in units:
-            a, b = results_cache[un], results_cache['seed2:' + un]
-            if a['status'] == 'ok' and not a['errors'] and (b['errors'] or b['status'] != 'ok'):
-                unstable.append({'unit': un, 'why': ['proof does not survive smt.random_seed (unstable, not a violation): ' +
-                                                     '; '.join((e.get('text') or '')[:120] for e in b['errors'][:3]) + ' '.join(b.get('undecided', []))[:200]]})
+        for sd in extra_seeds:
+            for un in units:
+                a, b = results_cache[un], results_cache['seed%d:%s' % (sd, un)]
+                if a['status'] == 'ok' and not a['errors'] and (b['errors'] or b['status'] != 'ok'):
+                    unstable.append({'unit': un, 'why': ['proof does not survive smt.random_seed=%d (unstable, not a violation): ' % sd +
+                                                         '; '.join((e.get('text') or '')[:120] for e in b['errors'][:3]) + ' '.join(b.get('undecided', []))[:200]]})
     kres = []
     if kani_units:
         import kani_runner
